@@ -11,3 +11,9 @@ pub mod hists {
     define_histogram!(h3, 3);
     define_histogram!(h4, 4);
 }
+pub mod cat {
+    use average::{concatenate, Estimate, Kurtosis, Max, Mean, Min, Quantile, Variance};
+    concatenate!(CatShort, [Min, min], [Max, max], [Mean, mean]);
+    concatenate!(pub CatLong, [Variance, var, mean, sample_variance, population_variance, error], [Quantile, quant, quantile],
+        [Kurtosis, kurt, kurtosis, skewness]);
+}
